@@ -87,10 +87,13 @@ def build_groups(ctx, groups, src="harness/C15/main.cpp", flag="C15_GROUP", tag=
     d = os.path.join(SHARED, "bin" + ("" if vcheck.REPO == "/repo" else "_" + hashlib.sha256(vcheck.REPO.encode()).hexdigest()[:8]))
     os.makedirs(d, exist_ok=True)
     exes, errs = {}, {}
+    # headers under harness/C15 and harness/C18 are not part of cxx_build's cache key: make them part of the flags
+    import glob as _glob
+    hh = vcheck.file_hash(_glob.glob(os.path.join(vcheck.VERIF, "harness", "C15", "*")) + _glob.glob(os.path.join(vcheck.VERIF, "harness", "C18", "*")))
 
     def one(g):
         return g, vcheck.cxx_build(os.path.join(vcheck.VERIF, src), os.path.join(d, "%s%d" % (tag, g)), hook=True,
-                                   extra=("-D%s=%d" % (flag, g),), timeout=1500)
+                                   extra=("-D%s=%d" % (flag, g), "-DVERIF_SRC_HASH=0x%s" % hh), timeout=1500)
     with cf.ThreadPoolExecutor(max_workers=min(8, len(groups))) as ex:
         futs = {ex.submit(one, g): g for g in groups}
         for f in cf.as_completed(futs):
@@ -349,10 +352,24 @@ def run_lincheck(lin, spec, histories, workdir, tag):
 
 
 def run_harness(exe, cases, workdir, tag, timeout=1500):
-    cfile = os.path.join(workdir, "cases_%s.txt" % tag)
-    write_cases(cfile, cases)
-    rc, out = vcheck.sh([exe, cfile], timeout=timeout)
-    return rc, parse_output(out), out
+    """runs the cases; a case that hangs (watchdog of the harness: "endcase hang", exit status 3) is recorded and the
+    remaining cases are run in a fresh process"""
+    outs, raw_all, rc = {}, "", 0
+    todo = list(cases)
+    rnd = 0
+    while todo:
+        cfile = os.path.join(workdir, "cases_%s_%d.txt" % (tag, rnd))
+        write_cases(cfile, todo)
+        rc, raw = vcheck.sh([exe, cfile], timeout=timeout)
+        raw_all = raw
+        o = parse_output(raw)
+        outs.update(o)
+        hung = [i for i, c in enumerate(todo) if o.get(c["id"], {}).get("end") == "hang"]
+        if not hung:
+            break
+        todo = todo[hung[0] + 1:]
+        rnd += 1
+    return rc, outs, raw_all
 
 
 # ---------------------------------------------------------------------------------------------------------
@@ -401,8 +418,9 @@ def check_variant(ctx, lin, exe, variant, cases, workdir, stats):
     viol = []
     st = stats.setdefault(variant, {"name": name, "cases": 0, "finished": 0, "fuel": 0, "nontrivial": 0, "histories_ok": 0,
                                     "extract_calls": 0, "extract_empty": 0, "clause3_checks": 0, "steps": 0,
-                                    "ops": {}, "window_inserts": 0, "unlink_dropped": 0, "shapes": set(), "routing_leftover": 0})
+                                    "ops": {}, "hangs": 0, "window_inserts": 0, "unlink_dropped": 0, "shapes": set(), "routing_leftover": 0})
     main, mainidx, setabs, setabsidx, c3, c3idx = [], [], [], [], [], []
+    hangs = stats.setdefault("_hangs", [])
     for c in cases:
         st["cases"] += 1
         o = outs.get(c["id"])
@@ -410,6 +428,10 @@ def check_variant(ctx, lin, exe, variant, cases, workdir, stats):
             viol.append(("harness produced no output for a case (crash / deadlock of the real container under the scheduler)",
                          {"case": c, "variant": name, "harness_rc": rc, "tail": raw[-600:]}, None))
             break
+        if o["end"] == "hang":
+            st["hangs"] += 1
+            hangs.append(c)
+            continue
         if o["end"] != "finished":
             st["fuel"] += 1
             continue
@@ -453,16 +475,54 @@ def check_variant(ctx, lin, exe, variant, cases, workdir, stats):
         for (x, j, h) in clause3_histories(ops, nev, intrusive):
             c3.append(h)
             c3idx.append((c, x, j))
+    bad_main = []
     for v, c, h in zip(run_lincheck(lin, spec, main, workdir, "v%d_main" % variant), mainidx, main):
         if v == "OK":
             st["histories_ok"] += 1
         else:
-            viol.append(("%s: history is not linearizable w.r.t. %s (lincheck: %s)" % (name, "MapSpec" if spec == "map" else "SetSpec", v),
-                         {"case": c, "variant": name, "history": h, "verdict": v}, None))
-    for v, c, h in zip(run_lincheck(lin, "set", setabs, workdir, "v%d_abs" % variant), setabsidx, setabs):
-        if v != "OK":
+            bad_main.append((v, c, h))
+    # classification of rejected histories (stable signatures for known_findings.json): which operations have to be
+    # taken out of the history to make it linearizable
+    def without(h, pred):
+        drop = set()
+        open_inv = {}
+        for i, l in enumerate(h):
+            t = l.split(" ")
+            if t[0] == "inv":
+                open_inv[t[1]] = i
+            elif t[0] == "res" and t[1] in open_inv:
+                j = open_inv.pop(t[1])
+                if pred(h[j].split(" ")[2:], t[2:], int(t[1])):
+                    drop.add(i); drop.add(j)
+        return [l for i, l in enumerate(h) if i not in drop]
+    rcu = "RCU" in name
+    is_empty_extract = lambda op, r, t: op[0] in (("extract_min", "extract_max") if rcu else ("extract_max",)) and r == ["none"]
+    is_pos_read = lambda op, r, t: t < 90 and ((op[0] == "contains" and r == ["true"]) or (op[0] == "find" and r[0] == "some"))
+    if bad_main:
+        h1 = [without(h, is_empty_extract) for (_, _, h) in bad_main]
+        v1 = run_lincheck(lin, spec, h1, workdir, "v%d_cls1" % variant)
+        h2 = [without(h, lambda op, r, t: is_empty_extract(op, r, t) or is_pos_read(op, r, t)) for (_, _, h) in bad_main]
+        v2 = run_lincheck(lin, spec, h2, workdir, "v%d_cls2" % variant)
+        for (v, c, h), a, b in zip(bad_main, v1, v2):
+            sig, why = None, ""
+            if fam == "skip" and a == "OK":
+                if rcu:
+                    sig, why = "skiplist-rcu-extract_minmax-empty-on-contention", " [extract_min/extract_max returned empty while the set was never empty]"
+                else:
+                    sig, why = "skiplist-hp-extract_max-empty-while-nonempty", " [extract_max returned empty while the set was never empty]"
+            elif fam == "skip" and b == "OK":
+                sig, why = "skiplist-find-returns-logically-deleted", " [a find/contains/get succeeded for a key already erased]"
+            viol.append(("%s: history is not linearizable w.r.t. %s (lincheck: %s)%s" % (name, "MapSpec" if spec == "map" else "SetSpec", v, why),
+                         {"case": c, "variant": name, "history": h, "verdict": v}, sig))
+    bad_abs = [(v, c, h) for v, c, h in zip(run_lincheck(lin, "set", setabs, workdir, "v%d_abs" % variant), setabsidx, setabs) if v != "OK"]
+    va = run_lincheck(lin, "set", [without(h, is_empty_extract) for (_, _, h) in bad_abs], workdir, "v%d_cls3" % variant)
+    for (v, c, h), a in zip(bad_abs, va):
+        if True:
+            sig = None
+            if fam == "skip" and a == "OK":
+                sig = "skiplist-rcu-extract_minmax-empty-on-contention" if rcu else "skiplist-hp-extract_max-empty-while-nonempty"
             viol.append(("%s: extract_min/extract_max returned empty although the map was never empty during the call (key-set abstraction not linearizable: %s)" % (name, v),
-                         {"case": c, "variant": name, "history": h, "verdict": v}, None))
+                         {"case": c, "variant": name, "history": h, "verdict": v}, sig))
     st["clause3_checks"] += len(c3)
     for v, (c, x, j), h in zip(run_lincheck(lin, "set", c3, workdir, "v%d_c3" % variant), c3idx, c3):
         if v != "OK":
@@ -489,6 +549,23 @@ def run_observable(ctx, lin, exes, variants, n_per_variant, stats, corpus=()):
     return viol, {v: cases for v, cases in jobs}
 
 
+def report_hangs(ctx, stats):
+    """a case that never finishes is a liveness defect, not a counter-example to C15 (a pending operation keeps the
+    history linearizable): recorded in the evidence and as a replay file, reported on stdout, exit status unaffected"""
+    hangs = stats.pop("_hangs", [])
+    out = []
+    for c in hangs[:5]:
+        c = {k: v for k, v in c.items() if not k.startswith("_")}
+        h = hashlib.sha256(json.dumps(c, sort_keys=True).encode()).hexdigest()[:12]
+        path = os.path.join(vcheck.VERIF, "replays", "%s-hang-%s.json" % (ctx.id, h))
+        json.dump({"property": ctx.id, "what": "operation never returns (livelock) on %s" % VARIANTS[c["variant"]][0], "case": c,
+                   "signature": "bronson-extract_minmax-livelock-routing-leaf" if VARIANTS[c["variant"]][2] == "bronson" else None}, open(path, "w"), indent=1)
+        out.append(path)
+    if hangs:
+        print("LIVENESS-FINDING: property=%s %d case(s) never finished (not a %s violation) first=%s" % (ctx.id, len(hangs), ctx.id, out[0]), flush=True)
+    ctx.coverage["liveness_findings"] = {"cases_that_never_finished": len(hangs), "replays": out}
+
+
 def load_corpus(pid):
     cdir = os.path.join(vcheck.VERIF, "corpus", pid)
     out = []
@@ -505,7 +582,7 @@ def load_corpus(pid):
 
 def summarize(stats):
     s = {}
-    for v, st in sorted(stats.items()):
+    for v, st in sorted((k, x) for k, x in stats.items() if isinstance(k, int)):
         d = dict(st)
         d["distinct_histories"] = len(d.pop("shapes"))
         s[str(v)] = d
@@ -534,6 +611,7 @@ def run(ctx):
     ctx.max_per_what = 1
     for what, obj, sig in viol:
         ctx.violation(what, obj, signature=sig)
+    report_hangs(ctx, stats)
     if not res.ok:
         ctx.violation("Coq obligations of C15 do not check: %s" % (res.failed[:2],), {"theorem": [f[2] for f in res.failed], "errors": res.failed[:3]}, no_input=True)
     per = summarize(stats)
